@@ -55,8 +55,8 @@ def page_cycle(rng, size, cpp):
 def exact_pages(rng):
     """exactly k full pages of one class (so the last acquire retires the working page), everything released in random
     order, query: exercises the give-back of pages when the class has no working page"""
-    size, cpp = rng.choice([(512, 7), (400, 7), (256, 15), (200, 15), (128, 31), (100, 31)])
-    k = rng.choice([1, 2, 3]) if cpp * 3 <= 64 else rng.choice([1, 2]) if cpp * 2 <= 64 else 1
+    size, cpp = rng.choice([(512, 7), (400, 7), (256, 15), (200, 15), (128, 31), (100, 31), (64, 63), (40, 63), (32, 127), (9, 127)])
+    k = rng.choice([1, 2, 3]) if cpp * 3 <= 256 else rng.choice([1, 2])
     n = cpp * k
     ops = ["A%d:%d" % (i, size) for i in range(n)] + ["Q"]
     order = list(range(n))
